@@ -751,6 +751,15 @@ func (c08) Exec(c *core.Case) (out *core.Outcome) {
 			if pg.Resp.OK() && bytes.Equal(pg.Resp.Body, u.Parts[n].Data) && len(u.Parts[n].Data) > 0 {
 				viol("part-readable-as-object", "after the program: GET of the key %q returns the %d bytes of part %d of the upload in progress for %q", pk, len(pg.Resp.Body), n, u.Key)
 			}
+			// ... and HEAD ?partNumber=n of a key that holds no object must not describe a part of an upload
+			// that is still in progress
+			if objects[u.Key] == nil && len(o.Violations) == 0 {
+				hq := s3c.HeadObject(bkt, u.Key)
+				hq.Query = append(hq.Query, KV{K: "partNumber", V: fmt.Sprint(n)})
+				if hp := e.Root().Do(hq); hp.Resp.OK() {
+					viol("part-visible-through-head", "after the program: HEAD %q?partNumber=%d -> %d (Content-Length %s, ETag %s) although the key holds no object, only an upload in progress", u.Key, n, hp.Resp.Status, hp.Resp.Get("Content-Length"), hp.Resp.Get("ETag"))
+				}
+			}
 			break
 		}
 	}
